@@ -20,5 +20,3 @@ mod params;
 mod keygen;
 #[cfg(kani)]
 mod codec;
-#[cfg(kani)]
-mod probe;
